@@ -2,11 +2,13 @@ use crate::report::Report;
 use crate::Ctx;
 
 pub mod c01;
+pub mod c11;
 pub mod c20;
 
 pub fn run(prop: &str, ctx: &mut Ctx) -> Option<Report> {
     match prop {
         "C01" => Some(c01::run(ctx)),
+        "C11" => Some(c11::run(ctx)),
         "C20" => Some(c20::run(ctx)),
         _ => None,
     }
